@@ -206,3 +206,307 @@ Proof.
   pose proof (good_mapLits cond s1) as G2. destruct (mapLits s1 cond) as [s2 ls]. simpl in *.
   apply good_next in G2. subst s1; simpl in G2. lia.
 Qed.
+
+Lemma makeAtom_id s cond named : Inv s -> next (fst (fst (makeAtom s cond named))) <= SMID_MOD ->
+  next_start <= snd (fst (makeAtom s cond named)) < next (fst (fst (makeAtom s cond named))).
+Proof.
+  intros HI. unfold makeAtom. destruct cond as [|c [|c2 r]]; try (intros _; apply makeAux_id; exact HI).
+  destruct (c <? 0); [intros _; apply makeAux_id; exact HI|].
+  pose proof (mapAtom_spec s (Z.abs c)) as H. destruct (mapAtom s (Z.abs c)) as [s1 r].
+  destruct H as [G [E [F N]]].
+  destruct (ashow r && named).
+  - intros HB. apply makeAux_id. destruct G as [L G]. apply G; [exact HI|].
+    pose proof (good_next _ _ (good_makeAux s1 [c])). lia.
+  - simpl. intros HB. destruct G as [L G]. destruct (G HI HB) as [I1 _]. rewrite E.
+    apply (inv_rng _ I1). apply N; assumption.
+Qed.
+
+Lemma small_mod x : next_start <= x < SMID_MOD -> 0 < x mod 2 ^ sym_atom_bits.
+Proof. pose proof bits_ok as [B1 B2]. intros H. rewrite Z.mod_small; lia. Qed.
+
+Lemma Pos_same s s' : same_ho s s' -> Pos s -> Pos s'.
+Proof. intros [H1 H2] [P1 P2]. split; [rewrite H1 | rewrite H2]; assumption. Qed.
+
+Lemma Pos_addOutput s a str h : Pos s -> 0 < a mod 2 ^ sym_atom_bits -> Pos (fst (addOutput s a str h)).
+Proof.
+  intros [P1 P2] Ha. unfold addOutput; simpl. split; simpl; [exact P1|].
+  apply Forall_app. split; [exact P2|]. constructor; [exact Ha | constructor].
+Qed.
+
+Lemma cv_call_never_err ext s c : unsupported ext c = false -> exists s' cs, cv_call ext s c = Ok (s', cs).
+Proof.
+  destruct c; cbn [cv_call unsupported]; intros U; try discriminate; try (eexists; eexists; reflexivity).
+  - destruct (flush ext s). eexists; eexists; reflexivity.
+  - destruct (negb _ || _); [|eexists; eexists; reflexivity].
+    destruct (mapHead s head). destruct (mapLits c body). eexists; eexists; reflexivity.
+  - destruct (negb _ || _); [|eexists; eexists; reflexivity].
+    destruct (mapHead s head) as [s1 mh]. destruct (mapWLits s1 body) as [s2 mb].
+    destruct (negb (ht =? Head_t_Choice) && _ && _); [eexists; eexists; reflexivity|].
+    destruct (newAtom s2). eexists; eexists; reflexivity.
+  - assert (H : forall l, existsb (fun lw : Z * Z => snd lw =? INT_MIN) l = false -> exists l', norm_min l = Some l').
+    { induction l as [|[x w] l IH]; simpl; [eexists; reflexivity|]. intros H. apply orb_false_iff in H as [H1 H2].
+      rewrite H1. destruct (IH H2) as [l' ->]. eexists; reflexivity. }
+    destruct (H _ U) as [l' ->]. eexists; eexists; reflexivity.
+  - destruct (makeAtom s cond true) as [[s1 a] cs]. destruct (addOutput s1 a name true). eexists; eexists; reflexivity.
+  - destruct (mapAtom s a) as [s1 r]. destruct (ahead r); eexists; eexists; reflexivity.
+  - destruct (makeAtom s cond true) as [[s1 hp] cs]. eexists; eexists; reflexivity.
+  - destruct (makeAtom s cond true) as [[s1 a] cs]. destruct (addOutput s1 a _ false). eexists; eexists; reflexivity.
+Qed.
+
+(* a directive inside a step: everything it emits is accepted in the rule section *)
+Lemma step_dir ext s w c s' cs :
+  phase_step 2 c = Some 2 -> unsupported ext c = false -> cv_call ext s c = Ok (s', cs) ->
+  Inv s -> Pos s -> next s' <= SMID_MOD -> sec w = 0 -> accepts ext w cs w /\ Pos s'.
+Proof.
+  intros Hph U H HI HP HB Hs.
+  destruct c; cbn [cv_call unsupported] in *; try discriminate.
+  - (* rule *)
+    destruct (negb match head with [] => true | _ => false end || (ht =? Head_t_Disjunctive)).
+    + pose proof (ho_mapHead s head) as F1. pose proof (mapHead_nonempty s head) as NE.
+      destruct (mapHead s head) as [s1 mh]. simpl in F1, NE.
+      pose proof (ho_mapLits body s1) as F2. destruct (mapLits s1 body) as [s2 mb]. simpl in F2.
+      inversion H; subst. split.
+      * apply neutral_accepts; [simpl; rewrite NE; reflexivity | exact Hs].
+      * eapply Pos_same; [exact (same_ho_trans _ _ _ F1 F2) | exact HP].
+    + inversion H; subst. split; [apply accepts_nil | exact HP].
+  - (* weight rule *)
+    destruct (negb match head with [] => true | _ => false end || (ht =? Head_t_Disjunctive)) eqn:EC.
+    + rewrite andb_true_r in U.
+      pose proof (ho_mapHead s head) as F1. pose proof (mapHead_nonempty s head) as NE.
+      destruct (mapHead s head) as [s1 mh]. simpl in F1, NE.
+      pose proof (ho_mapWLits body s1) as F2. destruct (mapWLits s1 body) as [s2 mb]. simpl in F2.
+      destruct (negb (ht =? Head_t_Choice) && (length mh =? 1)%nat && (0 <=? bound)) eqn:ER.
+      * inversion H; subst. split.
+        -- apply neutral_accepts; [simpl; rewrite NE; unfold sm_rule_ok; rewrite ER; reflexivity | exact Hs].
+        -- eapply Pos_same; [exact (same_ho_trans _ _ _ F1 F2) | exact HP].
+      * unfold newAtom in H. inversion H; subst. split.
+        -- apply neutral_accepts; [|exact Hs]. simpl. rewrite NE. unfold sm_rule_ok.
+           destruct heads_differ as [_ ->]. simpl. replace (0 <=? bound) with true by lia. reflexivity.
+        -- eapply Pos_same; [|exact HP]. eapply same_ho_trans; [exact F1|]. eapply same_ho_trans; [exact F2|].
+           split; reflexivity.
+    + inversion H; subst. split; [apply accepts_nil | exact HP].
+  - (* minimize *)
+    destruct (norm_min lits); [|discriminate]. inversion H; subst. split; [apply accepts_nil|].
+    eapply Pos_same; [|exact HP]. split; reflexivity.
+  - (* output *)
+    pose proof (ho_makeAtom s cond true) as F1. pose proof (makeAtom_neutral ext s cond true) as N1.
+    pose proof (makeAtom_id s cond true HI) as ID. pose proof (good_makeAtom s cond true) as G1.
+    destruct (makeAtom s cond true) as [[s1 a] cs1]. simpl in F1, N1, ID, G1.
+    pose proof (Pos_addOutput s1 a name true) as PA. pose proof (good_addOutput s1 a name true) as G2.
+    destruct (addOutput s1 a name true) as [s2 n]. simpl in PA, G2. inversion H; subst.
+    apply good_next in G2. split; [apply neutral_accepts; assumption|].
+    apply PA; [eapply Pos_same; eassumption|]. apply small_mod. specialize (ID ltac:(lia)). lia.
+  - (* external *)
+    pose proof (ho_mapAtom s a) as F1. destruct (mapAtom s a) as [s1 r]. simpl in F1.
+    destruct (ahead r); inversion H; subst; (split; [apply accepts_nil|]).
+    + eapply Pos_same; eassumption.
+    + eapply Pos_same; [|exact HP]. destruct F1. split; simpl; assumption.
+  - (* heuristic: only with the extensions *)
+    destruct ext; [|discriminate]. simpl in H.
+    pose proof (ho_makeAtom s cond true) as F1. pose proof (makeAtom_neutral true s cond true) as N1.
+    pose proof (makeAtom_id s cond true HI) as ID.
+    destruct (makeAtom s cond true) as [[s1 hp] cs1]. simpl in F1, N1, ID. inversion H; subst. simpl in HB.
+    split; [apply neutral_accepts; assumption|].
+    destruct F1 as [F1 F2]. destruct HP as [P1 P2]. split; simpl.
+    + apply Forall_app. split; [rewrite F1; exact P1|]. constructor; [|constructor]. simpl.
+      pose proof bits_ok. specialize (ID HB). lia.
+    + rewrite F2. exact P2.
+  - (* edge *)
+    destruct ext; [|discriminate]. cbn [app] in H.
+    pose proof (ho_makeAtom s cond true) as F1. pose proof (makeAtom_neutral true s cond true) as N1.
+    pose proof (makeAtom_id s cond true HI) as ID. pose proof (good_makeAtom s cond true) as G1.
+    destruct (makeAtom s cond true) as [[s1 a] cs1]. simpl in F1, N1, ID, G1.
+    match type of H with context [addOutput ?s0 ?x ?str ?b] =>
+      pose proof (Pos_addOutput s0 x str b) as PA; pose proof (good_addOutput s0 x str b) as G2;
+      destruct (addOutput s0 x str b) as [s2 n] end.
+    simpl in PA, G2. inversion H; subst.
+    apply good_next in G2. split; [apply neutral_accepts; assumption|].
+    apply PA; [eapply Pos_same; eassumption|]. apply small_mod. specialize (ID ltac:(lia)). lia.
+Qed.
+
+Lemma Inv_of_good a b : good a b -> Inv a -> next b <= SMID_MOD -> Inv b.
+Proof. intros [_ G] HI HB. apply G; assumption. Qed.
+
+Lemma Forall_sym_ins (P : sym -> Prop) x : forall l, P x -> Forall P l -> Forall P (sym_ins x l).
+Proof.
+  induction l as [|y l IH]; intros Hx Hl; simpl; [constructor; [exact Hx | constructor]|].
+  inversion Hl; subst. destruct (s_atom x <? s_atom y); constructor; auto.
+Qed.
+Lemma Forall_sym_sort (P : sym -> Prop) l : Forall P l -> Forall P (sym_sort l).
+Proof.
+  unfold sym_sort. assert (H : forall acc, Forall P acc -> Forall P l -> Forall P (fold_left (fun acc x => sym_ins x acc) l acc)).
+  { induction l as [|x l IH]; intros acc Ha Hl; simpl; [exact Ha|]. inversion Hl; subst.
+    apply IH; [apply Forall_sym_ins; assumption | assumption]. }
+  intros Hl. apply H; [constructor | exact Hl].
+Qed.
+
+Definition pos_sym (x : sym) : Prop := 0 < s_atom x.
+Definition pos_heu (h : heu) : Prop := 0 < h_cond h.
+
+Lemma flushHeuristic_pos hs : forall s, Inv s -> next (fst (flushHeuristic_f s hs)) <= SMID_MOD ->
+  Forall pos_heu hs -> Forall pos_sym (outs s) ->
+  forallb outb (snd (flushHeuristic_f s hs)) = true /\ Forall pos_sym (outs (fst (flushHeuristic_f s hs))).
+Proof.
+  induction hs as [|h r IH]; intros s HI; cbn [flushHeuristic_f]; [simpl; auto|].
+  destruct (negb (mapped s (h_atom h))).
+  - intros HB HF HO. inversion HF; subst. apply IH; assumption.
+  - pose proof (mapAtom_spec s (h_atom h)) as H. pose proof (ho_mapAtom s (h_atom h)) as [_ HO1].
+    destruct (mapAtom s (h_atom h)) as [s1 ma]. cbn [fst] in HO1.
+    destruct H as [G [E [F N]]].
+    set (nm := if ashow ma then sym_find (smId ma) (symtab s1) else None). destruct nm as [n|].
+    + pose proof (good_flushHeuristic_f r s1) as G2. pose proof (IH s1) as IH1.
+      destruct (flushHeuristic_f s1 r) as [s3 cs]. cbn [fst snd] in *.
+      intros HB HF HO. inversion HF as [|? ? Hh Hr]; subst.
+      assert (I1 : Inv s1) by (apply (Inv_of_good _ _ G HI); apply good_next in G2; lia).
+      destruct (IH1 I1 HB Hr) as [A1 A2]; [rewrite HO1; exact HO|].
+      split; [|exact A2]. simpl. unfold pos_heu in Hh. replace (0 <? h_cond h) with true by lia. exact A1.
+    + set (s1' := set_amap s1 (upd (h_atom h) (mkA (smId ma) (ahead ma) true (aextn ma)) (amap s1))).
+      assert (GS : good s1 s1') by (apply (good_setflags s1 (h_atom h) (mkA (smId ma) (ahead ma) true (aextn ma))); exact E).
+      pose proof (good_addOutput s1' (smId ma) (format fmt_atom [FU (smId ma)]) true) as GA.
+      destruct (addOutput s1' (smId ma) (format fmt_atom [FU (smId ma)]) true) as [s2 name] eqn:EA. cbn [fst] in GA.
+      assert (HO2 : outs s2 = outs s1 ++ [mkS (smId ma mod 2 ^ sym_atom_bits)
+                 (true && match sym_find (smId ma) (symtab s1') with None => true | Some _ => false end)
+                 (cut0 (format fmt_atom [FU (smId ma)]))]).
+      { unfold addOutput in EA. inversion EA; subst. reflexivity. }
+      pose proof (good_flushHeuristic_f r s2) as G2. pose proof (IH s2) as IH2.
+      destruct (flushHeuristic_f s2 r) as [s3 cs]. cbn [fst snd] in *.
+      intros HB HF HO. inversion HF as [|? ? Hh Hr]; subst.
+      assert (B2 : next s2 <= SMID_MOD) by (apply good_next in G2; lia).
+      assert (B1' : next s1' <= SMID_MOD) by (apply good_next in GA; lia).
+      assert (B1 : next s1 <= SMID_MOD) by (apply good_next in GS; lia).
+      assert (I1 : Inv s1) by (apply (Inv_of_good _ _ G HI B1)).
+      assert (I1' : Inv s1') by (apply (Inv_of_good _ _ GS I1 B1')).
+      assert (I2 : Inv s2) by (apply (Inv_of_good _ _ GA I1' B2)).
+      destruct (IH2 I2 HB Hr) as [A1 A2].
+      { rewrite HO2. apply Forall_app. split; [rewrite HO1; exact HO|]. constructor; [|constructor].
+        unfold pos_sym; simpl. apply small_mod. rewrite E. pose proof (inv_rng _ I1 (h_atom h) (N HI B1)). lia. }
+      split; [|exact A2]. simpl. unfold pos_heu in Hh. replace (0 <? h_cond h) with true by lia. exact A1.
+Qed.
+
+Lemma flushSymbols_out s : Forall pos_sym (outs s) -> forallb outb (flushSymbols s) = true.
+Proof.
+  intros H. unfold flushSymbols. apply Forall_sym_sort in H. induction H as [|x l Hx Hl IH]; simpl; [reflexivity|].
+  unfold pos_sym in Hx. replace (0 <? s_atom x) with true by lia. exact IH.
+Qed.
+
+Lemma step_end ext s w s' cs :
+  cv_call ext s CEnd = Ok (s', cs) -> Inv s -> Pos s -> next s' <= SMID_MOD -> sec w = 0 ->
+  exists w', accepts ext w cs w' /\ Pos s'.
+Proof.
+  cbn [cv_call]. unfold flush. intros H HI [P1 P2] HB Hs.
+  pose proof (good_flushMinimize (mins s) s) as G1. pose proof (ho_flushMinimize (mins s) s) as F1.
+  pose proof (flushMinimize_neutral ext (mins s) s) as N1.
+  destruct (flushMinimize s (mins s)) as [s1 c1]. cbn [fst snd] in *.
+  pose proof (good_flushExternal ext s1) as G2. pose proof (ho_flushExternal ext s1) as F2.
+  pose proof (flushExternal_neutral ext s1) as N2.
+  destruct (flushExternal ext s1) as [s2 c2]. cbn [fst snd] in *.
+  pose proof (good_flushHeuristic_f (heus s2) s2) as G3. pose proof (flushHeuristic_pos (heus s2) s2) as N3.
+  destruct (flushHeuristic_f s2 (heus s2)) as [s3 c3]. cbn [fst snd] in *.
+  inversion H; subst. simpl in HB.
+  assert (B2 : next s2 <= SMID_MOD) by (apply good_next in G3; lia).
+  assert (B1 : next s1 <= SMID_MOD) by (apply good_next in G2; lia).
+  assert (I2 : Inv s2) by (apply (Inv_of_good _ _ G2 (Inv_of_good _ _ G1 HI B1) B2)).
+  destruct F1 as [F1a F1b]. destruct F2 as [F2a F2b].
+  destruct (N3 I2 HB) as [O3 O4]; [unfold pos_heu; rewrite F2a, F1a; exact P1 | unfold pos_sym; rewrite F2b, F1b; exact P2|].
+  pose proof (flushSymbols_out s3 O4) as O5.
+  assert (A12 : accepts ext w (c1 ++ c2) w).
+  { apply neutral_accepts; [rewrite forallb_app, N1, N2; reflexivity | exact Hs]. }
+  destruct (out_accepts ext (c3 ++ flushSymbols s3) w) as [w3 [A3 S3]]; [rewrite forallb_app, O3, O5; reflexivity | lia|].
+  exists (mkSw 2 (fhead w3)). split.
+  - rewrite <- !app_assoc. rewrite (app_assoc c1 c2).
+    eapply accepts_app; [exact A12|]. rewrite (app_assoc c3 (flushSymbols s3)). eapply accepts_app; [exact A3|].
+    cbn [app].
+    eapply accepts_cons; [simpl; replace (sec w3 <? 2) with true by lia; reflexivity|].
+    eapply accepts_cons; [reflexivity | apply accepts_nil].
+  - split; constructor.
+Qed.
+
+(* ---- the two directions ---- *)
+Definition J (ph : Z) (s : cv) (w : sw) : Prop := Inv s /\ Pos s /\ (ph = 2 -> sec w = 0).
+
+Lemma errors_complete ext p : forall ph s w sf out,
+  wf_from ph p = true -> existsb (unsupported ext) p = false ->
+  cv_run ext s p = Ok (sf, out) -> next sf <= SMID_MOD -> J ph s w ->
+  exists w', conv_write ext s w p = Ok (sf, w', out).
+Proof.
+  induction p as [|c r IH]; intros ph s w sf out Hwf Hun Hrun HB [HI [HP HS]]; simpl in *.
+  - inversion Hrun; subst. eexists; reflexivity.
+  - apply orb_false_iff in Hun as [Uc Ur].
+    destruct (phase_step ph c) as [ph'|] eqn:Eph; [|discriminate].
+    destruct (cv_call ext s c) as [[s1 cs]|] eqn:Ec; [|discriminate].
+    destruct (cv_run ext s1 r) as [[s2 o2]|] eqn:Er; [|discriminate].
+    inversion Hrun; subst.
+    assert (B1 : next s1 <= SMID_MOD) by (pose proof (good_next _ _ (good_cv_run _ _ _ _ _ Er)); lia).
+    assert (I1 : Inv s1) by (apply (Inv_of_good _ _ (good_cv_call _ _ _ _ _ Ec) HI B1)).
+    assert (Hstep : exists w1, accepts ext w cs w1 /\ J ph' s1 w1).
+    { destruct c; simpl in Eph;
+        try (destruct (ph =? 2) eqn:E2; [|discriminate]; inversion Eph; subst ph';
+             match type of Ec with cv_call _ _ ?c0 = _ =>
+               destruct (step_dir ext s w c0 s1 cs eq_refl Uc Ec HI HP B1 (HS ltac:(lia))) as [A P'] end;
+             exists w; split; [exact A | split; [exact I1 | split; [exact P' | intros _; apply HS; lia]]]).
+      - (* init *) destruct (ph =? 0); [|discriminate]. inversion Eph; subst ph'.
+        cbn [cv_call] in Ec. inversion Ec; subst. simpl in Uc.
+        exists w. split.
+        + eapply accepts_cons; [simpl; rewrite Uc; reflexivity | apply accepts_nil].
+        + split; [exact I1 | split; [exact HP | intros; lia]].
+      - (* begin *) destruct (ph =? 1); [|discriminate]. inversion Eph; subst ph'.
+        cbn [cv_call] in Ec. inversion Ec; subst.
+        exists (mkSw 0 false). split.
+        + eapply accepts_cons; [reflexivity | apply accepts_nil].
+        + split; [exact I1 | split; [exact HP | reflexivity]].
+      - (* end *) destruct (ph =? 2) eqn:E2; [|discriminate]. inversion Eph; subst ph'.
+        destruct (step_end ext s w s1 cs Ec HI HP B1 (HS ltac:(lia))) as [w1 [A P']].
+        exists w1. split; [exact A | split; [exact I1 | split; [exact P' | intros; lia]]]. }
+    destruct Hstep as [w1 [A J1]]. unfold accepts in A. rewrite A.
+    destruct (IH ph' s1 w1 sf o2 Hwf Ur Er HB J1) as [w' ->]. eexists; reflexivity.
+Qed.
+
+Lemma errors_sound ext p : forall ph s w, wf_from ph p = true -> existsb (unsupported ext) p = true ->
+  exists e, conv_write ext s w p = Err e.
+Proof.
+  induction p as [|c r IH]; intros ph s w Hwf Hun; simpl in *; [discriminate|].
+  destruct (phase_step ph c) as [ph'|] eqn:Eph; [|discriminate].
+  destruct (cv_call ext s c) as [[s1 cs]|e] eqn:Ec; [|eexists; reflexivity].
+  destruct (sw_calls ext w cs) as [[w1 acc] ok] eqn:Es.
+  destruct ok; [|eexists; reflexivity].
+  destruct (unsupported ext c) eqn:Uc.
+  - exfalso. destruct c; cbn [cv_call unsupported] in *; try discriminate.
+    + (* init *) inversion Ec; subst. simpl in Es. rewrite Uc in Es. discriminate.
+    + (* weight rule *)
+      apply andb_true_iff in Uc as [Ub Uh]. rewrite Uh in Ec.
+      destruct (mapHead s head) as [sa mh]. destruct (mapWLits sa body) as [sb mb].
+      replace (0 <=? bound) with false in Ec by lia. rewrite andb_false_r in Ec.
+      destruct (newAtom sb) as [sc aux]. inversion Ec; subst. simpl in Es.
+      destruct (negb (sec w =? 0)); [discriminate|]. unfold sm_rule_ok in Es.
+      replace (0 <=? bound) with false in Es by lia. rewrite andb_false_r in Es. discriminate.
+    + (* minimize *)
+      assert (H : forall l, existsb (fun lw : Z * Z => snd lw =? INT_MIN) l = true -> norm_min l = None).
+      { induction l as [|[x wt] l IHl]; simpl; [discriminate|]. intros H. destruct (wt =? INT_MIN); [reflexivity|].
+        simpl in H. rewrite (IHl H). reflexivity. }
+      rewrite (H _ Uc) in Ec. discriminate.
+    + (* heuristic *) destruct ext; [discriminate|]. destruct (makeAtom s cond true) as [[sa hp] ca].
+      inversion Ec; subst. simpl in Es. discriminate.
+    + (* edge *) destruct ext; [discriminate|]. destruct (makeAtom s cond true) as [[sa hp] ca].
+      destruct (addOutput sa hp _ false). inversion Ec; subst. simpl in Es. discriminate.
+  - simpl in Hun. destruct (IH ph' s1 w1 Hwf Hun) as [e ->]. eexists; reflexivity.
+Qed.
+
+Lemma supported_runs ext p : forall s, existsb (unsupported ext) p = false -> exists sf out, cv_run ext s p = Ok (sf, out).
+Proof.
+  induction p as [|c r IH]; intros s H; simpl in *; [eexists; eexists; reflexivity|].
+  apply orb_false_iff in H as [Hc Hr]. destruct (cv_call_never_err ext s c Hc) as (s1 & cs & ->).
+  destruct (IH s1 Hr) as (sf & out & ->). eexists; eexists; reflexivity.
+Qed.
+
+Lemma errors_characterised ext p : wf_from 0 p = true ->
+  (existsb (unsupported ext) p = true -> exists e, conv_write ext cv0 sw0 p = Err e) /\
+  (existsb (unsupported ext) p = false ->
+     exists s out, cv_run ext cv0 p = Ok (s, out) /\
+       (next s <= 2 ^ smid_bits -> exists w, conv_write ext cv0 sw0 p = Ok (s, w, out))).
+Proof.
+  intros Hwf. split.
+  - intros H. eapply errors_sound; eassumption.
+  - intros H. destruct (supported_runs ext p cv0 H) as (s & out & Hr). exists s, out. split; [exact Hr|].
+    intros HB. eapply errors_complete; try eassumption.
+    split; [apply Inv_cv0 | split; [split; constructor | intros; lia]].
+Qed.
